@@ -446,6 +446,17 @@ pub fn c12(args: &Args, log: &mut Log) {
                 }
             }
         }
+        // the inlined spelling of a library type inlines its arguments too: it names no user type (whoever inlines it does
+        // not learn about that type - `visit_dependencies` lists what the *inlined* arguments depend on, not the arguments)
+        if let Some(Ok(it)) = &inline_ty {
+            checked += 1;
+            let mut free = std::collections::BTreeSet::new();
+            it.free_names(&std::collections::BTreeSet::new(), &mut free);
+            let named: Vec<&String> = free.iter().filter(|n| ["LU", "LK"].contains(&n.as_str())).collect();
+            if !named.is_empty() {
+                fails.push(json!({"kind": "inline-names-an-argument", "reason": format!("inline() = {:?} refers to {named:?} by name", e.inline.as_ref().ok())}));
+            }
+        }
         // the key type of a keyed object must be something TypeScript can index with (string / number / literals of those):
         // `{ [key in bigint]?: V }` or `{ [key in boolean]?: V }` is rejected by the TypeScript compiler
         if let Ok(nt) = &name_ty {
